@@ -1103,8 +1103,15 @@ NoStuckRequest == \A c \in AllCA : ~StuckRequest(c)
 LostCert(c) ==
     /\ Ex(c) /\ hasp[c] /\ c # Top /\ parent[c] \in AllCA /\ exists[parent[c]]
     /\ cstate[c] = "active"
+    \* (known-findings.json, C02-cert-shrunk-by-parent-not-re-requested: the
+    \* same when the parent did not withdraw but cut down the certificate --
+    \* rc.rs shrink_overclaiming after its own certificate shrank -- and
+    \* regained the resources before the child's next synchronisation: the
+    \* parent publishes less than the child believes it holds, for good.
+    \* Found by TLC as a violation of the temporal property
+    \* C02_ConvergesForGood of MC_Krill_live.)
     /\ \E x \in {"cur", "new"} :
-          rcv[c][x] # NoRes /\ iss[c][x] = NoRes /\ rcv[c][x] = Offer(c)
+          rcv[c][x] # NoRes /\ iss[c][x] # rcv[c][x] /\ rcv[c][x] = Offer(c)
 NoLostCert == \A c \in AllCA : ~LostCert(c)
 
 NoOpenWork(c) ==
